@@ -180,10 +180,11 @@ def BInv (v : Nat) (b : Buf) : Prop :=
   | .dflt c => c = v ∧ b.s = 0 ∧ b.e = 0 ∧ b.cap = 0
 
 /-- how a method may change the ledger, `o`/`o'` = block owned by the object before/after: the live
-    set loses `o` unless kept and gains `o'`; a new block is fresh -/
+    set loses `o` unless kept and gains `o'`; a new block is fresh (the first or – when the method made a temporary
+    Buffer first – the second id handed out by the method) -/
 def LStep (o o' : Option Nat) (L L' : Ledger) : Prop :=
   (∀ i, i ∈ L'.live ↔ (o' = some i ∨ (i ∈ L.live ∧ o ≠ some i))) ∧
-  (o' = o ∨ o' = none ∨ (o' = some L.next ∧ L.next < L'.next)) ∧
+  (o' = o ∨ o' = none ∨ (o' = some L.next ∧ L.next < L'.next) ∨ (o' = some (L.next + 1) ∧ L.next + 1 < L'.next)) ∧
   L.next ≤ L'.next
 
 /-- unfold a Buffer method into its weakest precondition -/
